@@ -1,7 +1,11 @@
 (* C06 - Garbage collection removes exactly the unused objects and never a used one.
-   Only statements here; proofs are in Proofs/GcProofs.v, the model in Model/Gc.v. *)
+   Only statements here; proofs are in Proofs/GcProofs.v, the model in Model/Gc.v.
+   [gc] is assembled from the decisions GENERATED from the AST of gc.py (Gen/GcDecisions.v,
+   translator unit "gc", regenerated on every run); C06_model_is_flat and
+   C06_generated_decisions at the end tie them to the flat reading the theorems are proved
+   about, so an edit of gc() breaks the translation or one of these proofs. *)
 From Coq Require Import NArith List Bool.
-From DvcData Require Import Base.Val Model.Gc Proofs.GcProofs.
+From DvcData Require Import Base.Val Gen.GcDecisions Model.Gc Proofs.GcProofs.
 Import ListNotations.
 Open Scope N_scope.
 
@@ -99,3 +103,36 @@ Theorem C06_other_alg : forall i,
   gc (with_used i (filter (fun p => list_N_eqb (fst p) (g_alg i)) (g_used i))) = gc i.
 Proof. exact gc_other_alg. Qed.
 Print Assumptions C06_other_alg.
+
+(* --- the tie between gc.py and the model ---
+   gc (built from GcDecisions.*, generated from the source) is the flat function gc_flat:
+   refuse when read-only; used := ids of the collected store's algorithm (+ listed files when
+   expanding, listings from cache_odb); count the store objects that are not used; remove them
+   unless dry. *)
+Theorem C06_model_is_flat : forall i, gc i = gc_flat i.
+Proof. exact gc_eq. Qed.
+Print Assumptions C06_model_is_flat.
+
+(* the individual decisions read off the source *)
+Theorem C06_generated_decisions :
+  (* the read-only guard is the first statement and looks at odb.read_only only (not at dry) *)
+  hd_error GcDecisions.phases = Some GcDecisions.PhGuard /\
+  (forall ro dry sh, GcDecisions.read_only_refused ro dry sh = ro) /\
+  (* the algorithm filter compares hash_info.name with the COLLECTED store's hash_name *)
+  (forall name alg calg dry sh, GcDecisions.used_skip name alg calg dry sh = negb (list_N_eqb name alg)) /\
+  (* expansion: isdir and not shallow, listings loaded from cache_odb *)
+  (forall isdir dry sh, GcDecisions.expand isdir dry sh = isdir && negb sh) /\
+  GcDecisions.tree_source = GcDecisions.FromCache /\
+  (* the scan walks the collected store, skips exactly the used ids, partitions by the .dir suffix *)
+  GcDecisions.scan_source = GcDecisions.ScanOdb /\
+  (forall b dry sh, GcDecisions.scan_skip b dry sh = b) /\
+  (forall d dry sh, GcDecisions.scan_target d dry sh = if d then GcDecisions.DirPaths else GcDecisions.FilePaths) /\
+  GcDecisions.dir_suffix = dot_dir /\
+  (* both lists are counted when non-empty, dry or not, and removed only when not dry *)
+  GcDecisions.removal_lists = [GcDecisions.DirPaths; GcDecisions.FilePaths] /\
+  (forall ne dry sh, GcDecisions.counted ne dry sh = ne) /\
+  (forall ne dry sh, GcDecisions.removed ne dry sh = ne && negb dry) /\
+  (* defaults of the keyword parameters *)
+  GcDecisions.default_shallow = true /\ GcDecisions.default_dry = false.
+Proof. exact gc_generated_decisions. Qed.
+Print Assumptions C06_generated_decisions.
